@@ -86,7 +86,16 @@ def fn(x) -> dict:
 
 
 # ------------------------------------------------------------------ the real objects
+_CLASSES = {}
+
+
 def grammar_class(cls: str):
+    if cls not in _CLASSES:
+        _CLASSES[cls] = _grammar_class(cls)
+    return _CLASSES[cls]
+
+
+def _grammar_class(cls: str):
     if cls == "json":
         from gemseo.core.grammars.json_grammar import JSONGrammar
 
@@ -98,6 +107,17 @@ def grammar_class(cls: str):
     from gemseo.core.grammars.pydantic_grammar import PydanticGrammar
 
     return PydanticGrammar
+
+
+_IDE = []
+
+
+def _invalid_data_error():
+    if not _IDE:
+        from gemseo.core.grammars.errors import InvalidDataError
+
+        _IDE.append(InvalidDataError)
+    return _IDE[0]
 
 
 class Rejected(Exception):
@@ -220,18 +240,12 @@ class Impl:
         return out
 
     def accepts(self, s: int, data: dict) -> bool:
-        from gemseo.core.grammars.errors import InvalidDataError
-
         g = self.slots[s]
         try:
             g.validate(data)
-        except InvalidDataError:
-            ok = False
-        else:
-            ok = True
-        # the two calling conventions must agree
-        g.validate(data, raise_exception=False)
-        return ok
+        except _invalid_data_error():
+            return False
+        return True
 
     def export(self, s: int, via: str):
         """(element names, required names or None when the key is absent) of the exported schema."""
